@@ -24,13 +24,27 @@ NKinds == 4
 \*   5..29     exclusive range d[i]..d[j]   (all ordered pairs i, j in 1..5)
 \*   30..54    inclusive range
 \*   55..64    alternation d[i] | d[j], i < j
-NPat == 65
+\*   65..74    alternations that mix ranges and literals (a range that is not the last alternative, scrutinees
+\*             below / above it that a later alternative matches, two ranges, reversed range then literal)
+NPat == 75
+MixedAlt(d, m) ==
+  CASE m = 0 -> <<PRange(d[2], d[4], FALSE), PLit(d[1])>>
+    [] m = 1 -> <<PRange(d[2], d[4], TRUE), PLit(d[1])>>
+    [] m = 2 -> <<PRange(d[3], d[5], FALSE), PLit(d[1]), PLit(d[2])>>
+    [] m = 3 -> <<PLit(d[5]), PRange(d[1], d[3], FALSE)>>
+    [] m = 4 -> <<PRange(d[1], d[2], TRUE), PRange(d[4], d[5], TRUE)>>
+    [] m = 5 -> <<PRange(d[4], d[5], TRUE), PRange(d[1], d[2], TRUE)>>
+    [] m = 6 -> <<PLit(d[1]), PRange(d[3], d[4], TRUE), PLit(d[5])>>
+    [] m = 7 -> <<PRange(d[2], d[3], FALSE), PLit(d[5]), PLit(d[1])>>
+    [] m = 8 -> <<PRange(d[3], d[4], TRUE), PLit(d[5])>>
+    [] m = 9 -> <<PRange(d[4], d[2], FALSE), PLit(d[3])>>
 AltPairs == << <<1,2>>, <<1,3>>, <<1,4>>, <<1,5>>, <<2,3>>, <<2,4>>, <<2,5>>, <<3,4>>, <<3,5>>, <<4,5>> >>
 Pat(d, p) ==
   IF p < 5 THEN <<PLit(d[p + 1])>>
   ELSE IF p < 30 THEN <<PRange(d[((p - 5) \div 5) + 1], d[((p - 5) % 5) + 1], FALSE)>>
   ELSE IF p < 55 THEN <<PRange(d[((p - 30) \div 5) + 1], d[((p - 30) % 5) + 1], TRUE)>>
-  ELSE <<PLit(d[AltPairs[p - 54][1]]), PLit(d[AltPairs[p - 54][2]])>>
+  ELSE IF p < 65 THEN <<PLit(d[AltPairs[p - 54][1]]), PLit(d[AltPairs[p - 54][2]])>>
+  ELSE MixedAlt(d, p - 65)
 \* second arms: none, literal d[2], d[2]..d[4], d[1]..=d[3], alternation d[3]|d[5], literal d[5]
 NSecond == 6
 Second(d, q) ==
